@@ -76,6 +76,9 @@ pub struct WorldCfg {
     /// also deploy an unregistered vAMM whose decimals differ from the engine's
     #[serde(default)]
     pub alien: bool,
+    /// also deploy an opened vAMM that was instantiated without margin engine / insurance fund
+    #[serde(default)]
+    pub orphan: bool,
 }
 
 impl WorldCfg {
@@ -111,6 +114,7 @@ impl WorldCfg {
             poor_balance: 3 * d,
             whitelist_whale: false,
             alien: false,
+            orphan: false,
         }
     }
 }
@@ -160,6 +164,7 @@ pub struct World {
     /// last price the harness submitted to each vAMM's oracle
     pub oracle_model: Vec<u128>,
     pub alien_vamm: Option<Addr>,
+    pub orphan_vamm: Option<Addr>,
 }
 
 fn c_cw20() -> Box<dyn Contract<Empty>> {
@@ -546,6 +551,35 @@ impl World {
         } else {
             None
         };
+        let orphan_vamm = if cfg.orphan {
+            let a = app
+                .instantiate_contract(
+                    vamm_code,
+                    o.clone(),
+                    &vamm::InstantiateMsg {
+                        decimals: cfg.decimals,
+                        pricefeed: oracles[0].to_string(),
+                        margin_engine: None,
+                        insurance_fund: None,
+                        quote_asset: "USD".into(),
+                        base_asset: keys[0].clone(),
+                        quote_asset_reserve: u(1000 * d),
+                        base_asset_reserve: u(100 * d),
+                        funding_period: 3600,
+                        toll_ratio: u(0),
+                        spread_ratio: u(0),
+                        fluctuation_limit_ratio: u(0),
+                    },
+                    &[],
+                    "orphan_vamm",
+                    None,
+                )
+                .map_err(e)?;
+            app.execute_contract(o.clone(), a.clone(), &vamm::ExecuteMsg::SetOpen { open: true }, &[]).map_err(e)?;
+            Some(a)
+        } else {
+            None
+        };
         // allowances
         if let Some(t) = &token {
             for (i, tr) in traders.iter().enumerate() {
@@ -613,6 +647,7 @@ impl World {
             paused: false,
             oracle_model: cfg.vamms.iter().map(|v| v.oracle_price).collect(),
             alien_vamm,
+            orphan_vamm,
         };
         // a deployment is used from the block after its creation (see DESIGN C15)
         w.next_block(15, 1);
